@@ -661,6 +661,31 @@ func (it *vfC15Iter) check() [][2]string {
 					cands[x.key] = true
 				}
 			}
+			// the node (and with it the retained event) also survives the Close of its last emitter while a
+			// typed sink of the type stays attached: another subscriber whose Subscribe returned before every
+			// event that can be the retained one began, and which had not called Close when this Subscribe returned
+			if !alive && must {
+				minCall := int64(0)
+				for _, x := range done {
+					if cands[x.key] && (minCall == 0 || x.call < minCall) {
+						minCall = x.call
+					}
+				}
+				for _, q := range it.subs {
+					if q == st || q.plan.wildcard || q.subRet == 0 || q.subRet >= minCall {
+						continue
+					}
+					holds := false
+					for _, t := range vfC15SubTypes[q.plan.id] {
+						if t == styp {
+							holds = true
+						}
+					}
+					if holds && (q.closeCall == 0 || q.closeCall > st.subRet) {
+						alive = true
+					}
+				}
+			}
 			var first *vfC15Recv
 			for i := range st.recvs {
 				if st.recvs[i].typ == styp {
